@@ -23,7 +23,8 @@ RULE = ("E1+E3: ('rt', curve, key) for all 17 curves x 7 keys (scalar 1, n-1, 2 
         "the same key and canonical forms re-encode byte-identically and explicit curve parameters agree field by field (optional seed ignored); ('p256', key) the 27-byte header BEC2 assumes; ('prefix', curve, enc) EVERY "
         "proper prefix and one-byte extension of every valid encoding must be rejected; ('mut', curve, enc, pos) EVERY position x {^01, ^80, 00, FF, "
         "+1} must decode or raise a documented error (UnexpectedDER, MalformedPointError, UnknownCurveError, ValueError, RuntimeError). "
-        "Distinct = case tuples; decodes counted in 'measured'.")
+        "Distinct = case tuples; decodes counted in 'measured'."
+        " Decoded keys are encoded again in the default form and compared byte for byte with the original's default encoding (own encodings and OpenSSL-produced ones); a truncated / extended point string that an independent SEC 1 reader recognises as a complete valid encoding in another form must be read as exactly that point.")
 ASSUMPTIONS = [
     "documented decoder errors: UnexpectedDER, MalformedPointError, UnknownCurveError, ValueError (incl. binascii.Error), RuntimeError",
     "OpenSSL 3 CLI is the compatibility oracle; byte-identical re-encoding is required for SEC1/SPKI with named curve and uncompressed points",
